@@ -150,6 +150,21 @@ func NewSim(cfg Config, flags Flags, prof *Profile) *Sim {
 	if prof == nil {
 		s.Prof = DefaultProfile()
 	}
+	// fault "the table / archetype list moves" (hook MoveSlices): ark must re-fetch table and
+	// archetype pointers after anything that may create a table
+	moveCounter = 0
+	if cfg.Move > 0 {
+		ecs.Verif.MoveSlices = func() bool {
+			moveCounter++
+			if moveCounter%cfg.Move != 0 {
+				return false
+			}
+			s.C.Faults["storage_list_moved"]++
+			return true
+		}
+	} else {
+		ecs.Verif.MoveSlices = nil
+	}
 	switch {
 	case cfg.Cap <= 0:
 		s.W = ecs.NewWorld()
@@ -206,11 +221,15 @@ func NewSim(cfg Config, flags Flags, prof *Profile) *Sim {
 	return s
 }
 
+// moveCounter counts the appends seen by the MoveSlices hook.
+var moveCounter int
+
 // Done releases global hooks.
 func (s *Sim) Done() {
 	ecs.Verif.Yield = s.prevYield
 	ecs.Verif.Probe = nil
 	ecs.Verif.Skew = nil
+	ecs.Verif.MoveSlices = nil
 	Tracker = nil
 }
 
